@@ -1,4 +1,5 @@
 import CTV.Gen.Handlers
+import CTV.Model.HandlerSpec
 import CTV.Model.GetEntries
 /-!
 # C07 — get-entries serves the stored bytes for exactly the range it claims
@@ -20,7 +21,8 @@ namespace C07
 which the handler turns into 400 before any backend call). -/
 theorem range_ok_iff (s e m : Int) (al : Bool) :
     (Gen.parseGetEntriesRange s e m al).isSome ↔ (0 ≤ s ∧ s ≤ e) := by
-  unfold Gen.parseGetEntriesRange
+  rw [Gen.parseGetEntriesRange_eq_spec]
+  unfold Spec.parseGetEntriesRange
   by_cases h1 : s < 0 <;> by_cases h2 : e < 0 <;> by_cases h3 : s > e <;> simp [h1, h2, h3] <;> omega
 
 /-- Full-strength shape theorem: for every int64 `s e`, every positive int64 maximum `m` and either
@@ -31,7 +33,8 @@ theorem range_shape (s e m : Int) (al : Bool) (hs : inRange s) (he : inRange e) 
     (s' e' : Int) (h : Gen.parseGetEntriesRange s e m al = some (s', e')) :
     s' = s ∧ s ≤ e' ∧ e' ≤ e ∧
     Gen.getEntriesCount s' e' = e' + 1 - s ∧ 1 ≤ Gen.getEntriesCount s' e' ∧ Gen.getEntriesCount s' e' ≤ m := by
-  unfold Gen.parseGetEntriesRange at h
+  rw [Gen.parseGetEntriesRange_eq_spec] at h
+  unfold Spec.parseGetEntriesRange at h
   simp only [Bool.or_eq_true, decide_eq_true_eq, Bool.and_eq_true] at h
   split at h
   · simp at h
@@ -45,7 +48,8 @@ theorem range_shape (s e m : Int) (al : Bool) (hs : inRange s) (he : inRange e) 
   -- the handler's count expression never wraps to a wrong value: wrap (wrap (e'+1) - s) = e'+1-s
   have hcount : ∀ x : Int, s ≤ x → x ≤ e → x + 1 - s ≤ m → Gen.getEntriesCount s x = x + 1 - s := by
     intro x hx1 hx2 hx3
-    unfold Gen.getEntriesCount I64.sub I64.add wrap64
+    rw [Gen.getEntriesCount_eq_spec]
+    unfold Spec.getEntriesCount I64.sub I64.add wrap64
     omega
   split at h <;> split at h <;> rename_i hc ha
   all_goals simp only [decide_eq_true_eq, Bool.and_eq_true, not_and, Int.not_lt, Int.not_le, ge_iff_le, gt_iff_lt] at hc ha
@@ -71,7 +75,8 @@ theorem align_only_shortens (s e m : Int) (hs : inRange s) (he : inRange e) (hm 
     (h2 : Gen.parseGetEntriesRange s e m false = some (s2, e2)) :
     s1 = s2 ∧ e1 ≤ e2 ∧ s1 ≤ e1 := by
   have a := range_shape s e m true hs he hm hm' s1 e1 h1
-  unfold Gen.parseGetEntriesRange at h1 h2
+  rw [Gen.parseGetEntriesRange_eq_spec] at h1 h2
+  unfold Spec.parseGetEntriesRange at h1 h2
   simp only [Bool.or_eq_true, decide_eq_true_eq, Bool.and_eq_true, Bool.false_and, Bool.true_and,
     Bool.false_eq_true, if_false] at h1 h2
   split at h1
@@ -109,12 +114,14 @@ example : inRange 0 ∧ inRange (2^63 - 1) ∧ (0:Int) < 1000 ∧ inRange 1000 :
 /-- get-entry-and-proof parameters are accepted exactly when `0 ≤ leaf_index < tree_size`. -/
 theorem entryAndProof_ok_iff (i n : Int) :
     (Gen.parseGetEntryAndProofParams i n).isSome ↔ (0 ≤ i ∧ i < n) := by
-  unfold Gen.parseGetEntryAndProofParams
+  rw [Gen.parseGetEntryAndProofParams_eq_spec]
+  unfold Spec.parseGetEntryAndProofParams
   by_cases h1 : n ≤ 0 <;> by_cases h2 : i < 0 <;> by_cases h3 : i ≥ n <;> simp [h1, h2, h3] <;> omega
 
 theorem entryAndProof_passthrough (i n i' n' : Int)
     (h : Gen.parseGetEntryAndProofParams i n = some (i', n')) : i' = i ∧ n' = n := by
-  unfold Gen.parseGetEntryAndProofParams at h
+  rw [Gen.parseGetEntryAndProofParams_eq_spec] at h
+  unfold Spec.parseGetEntryAndProofParams at h
   repeat (split at h; · simp at h)
   simp at h; omega
 
